@@ -1699,9 +1699,15 @@ func (m RadioTap) SerializeTo(b gopacket.SerializeBuffer, opts gopacket.Serializ
 	vendorNamespaceIndex := 0
 	for _, present := range m.Present {
 		if radioTapNamespace {
+			if radioTapNamespaceIndex >= len(m.RadioTapValues) {
+				return fmt.Errorf("RadioTap has no values for radiotap namespace %d of its present bitmap", radioTapNamespaceIndex)
+			}
 			offset = m.RadioTapValues[radioTapNamespaceIndex].serializeTo(buf, offset, present)
 			radioTapNamespaceIndex += 1
 		} else if vendorNamespace {
+			if vendorNamespaceIndex >= len(m.VendorValues) {
+				return fmt.Errorf("RadioTap has no values for vendor namespace %d of its present bitmap", vendorNamespaceIndex)
+			}
 			offset = m.VendorValues[vendorNamespaceIndex].serializeTo(buf, offset, present)
 			vendorNamespaceIndex += 1
 		} else {
